@@ -388,8 +388,16 @@ class TorControlProtocol(LineOnlyReceiver):
         See :meth:`getinfo <txtorcon.TorControlProtocol.get_info>`
         """
 
+        # only the final status line is the "OK" terminator; an "OK"
+        # followed by further lines is part of the value
+        held_ok = []
+
         def strip_ok_and_call(line):
-            if line.strip() != 'OK':
+            while held_ok:
+                line_cb(held_ok.pop())
+            if line.strip() == 'OK':
+                held_ok.append(line)
+            else:
                 line_cb(line)
         return self.queue_command('GETINFO %s' % key, strip_ok_and_call)
 
